@@ -274,6 +274,9 @@ class VecInterp(Interp):
         if re.search(r"slice::<impl \[\w+\]>::to_vec$|Clone>::clone$|Clone::clone$", c) and isinstance(a[0], list):
             return list(a[0])
         if re.search(r"vec::from_elem$", c):
+            if isinstance(a[0], (list, dict)):
+                import copy
+                return [copy.deepcopy(a[0]) for _ in range(a[1])]
             return [a[0]] * a[1]
         if re.search(r"(slice::<impl \[\w+\]>|Vec::<\w+(, A)?>)::(as_slice|as_mut_slice)$", c):
             return ("refval", a[0])
